@@ -15,6 +15,7 @@ CONV = r"(into_mut_|to_long_form|to_raw_form|try_into_mut_short|from_short_form|
 
 def run(ctx):
     cfgs = ["rel"] if ctx.tier == "quick" else ["rel", "dbg", "unsafe", "nodef", "strict"]
+    ctx.progs(cfgs)  # build all configurations in parallel
     for c in cfgs:
         prog = ctx.prog(c)
         ctx.guard("C15", "like", lambda: fields.like_index(ctx, prog, scope=CONV, floor=25))
